@@ -10,7 +10,13 @@ let coq_string (s : string) : Model.string =
 let () = run_lines (fun toks ->
   match toks with
   | name :: args ->
-    (match Model.run (coq_string name) (List.map z_of_string args) with
+    let zargs = List.map z_of_string args in
+    (match Model.run_o (coq_string name) zargs with
+     | Some (Model.Ret z) -> string_of_z z
+     | Some Model.Throws -> "THROWS"
+     | Some Model.NoReturn -> "DOES-NOT-RETURN"
+     | None ->
+    (match Model.run (coq_string name) zargs with
      | Some res -> String.concat " " (List.map string_of_z res)
-     | None -> "UNKNOWN-OP")
+     | None -> "UNKNOWN-OP"))
   | _ -> "BAD-LINE")
